@@ -177,8 +177,14 @@ Definition mkey_eqb (a b : mkey) : bool :=
 Record nsyn := { n_kind : kind; n_share : Z; n_in : option (option nat); n_by : option Z }.
 Record tsyn := { t_far : nat; t_needs : list nsyn }.
 Definition wr := (Z * Z * val)%type.          (* share, field, value *)
-(* f_guard: optional entry guard  `let me if <share field> >= 1`  (a before-enter need, beact) *)
-Record fsyn := { f_guard : option (Z * Z);
+(* f_guard: optional entry guard (a before-enter need, beact):
+     GCmp sh fld :  let me if <share field> >= 1
+     GMark n     :  let me if <share> is updated|changed [in frame [name]] [by marker]
+   NeedMarker._resolve gives a `let` marker need its entry marker (when written `in frame`) but its
+   transit marker act stays in the need's own ._tracts, which only Transiter._resolve collects:
+   it is NEVER executed. *)
+Inductive guard := GCmp (sh fld : Z) | GMark (n : nsyn).
+Record fsyn := { f_guard : option guard;
                  f_enter : list wr; f_recur : list wr; f_exit : list wr; f_trans : list tsyn }.
 Definition prog := list fsyn.
 
@@ -194,7 +200,8 @@ Definition resolve_need (fi : nat) (n : nsyn) : rmark := (n_kind n, n_share n, n
 
 (* entry markers of frame F: one for every need (anywhere) written with `in frame` that names F *)
 Definition needs_of_frame (fi : nat) (f : fsyn) : list (nat * nsyn) :=
-  flat_map (fun t => map (fun n => (fi, n)) (t_needs t)) (f_trans f).
+  flat_map (fun t => map (fun n => (fi, n)) (t_needs t)) (f_trans f) ++
+  match f_guard f with Some (GMark n) => [(fi, n)] | _ => [] end.
 Fixpoint all_needs (fi : nat) (p : prog) : list (nat * nsyn) :=
   match p with [] => [] | f :: r => needs_of_frame fi f ++ all_needs (S fi) r end.
 Definition entry_marks (p : prog) (F : nat) : list rmark :=
@@ -289,14 +296,15 @@ Definition frame_of (p : prog) (i : nat) : fsyn :=
 (* Framer.checkEnter([far]) for a flat frame: every beact of the far frame holds.  The guard is the
    comparison need  state >= 1  (python >= on the field's value; a raise counts as refused here --
    the harness only ever stores numbers in guard fields) *)
-Definition guard_ok (s : kst) (f : fsyn) : bool :=
+Definition guard_ok (s : kst) (F : nat) (f : fsyn) : bool :=
   match f_guard f with
   | None => true
-  | Some (sh, fld) =>
+  | Some (GCmp sh fld) =>
       match fget fld (s_data (get_share sh (k_shares s))) with
       | Some v => match py_ge v (VInt 1) with Ok c => py_truthy c | Err _ => false end
       | None => false
       end
+  | Some (GMark n) => need_eval s (resolve_need F n)      (* `me` is the guarded frame itself *)
   end.
 
 (* events of entering frame F: entry markers first, then the enter acts *)
@@ -312,7 +320,7 @@ Definition needs_true (s : kst) (fi : nat) (t : tsyn) : bool :=
 Fixpoint pick (p : prog) (s : kst) (fi : nat) (ts : list tsyn) : option tsyn :=
   match ts with
   | [] => None
-  | t :: r => if needs_true s fi t && guard_ok s (frame_of p (t_far t)) then Some t else pick p s fi r
+  | t :: r => if needs_true s fi t && guard_ok s (t_far t) (frame_of p (t_far t)) then Some t else pick p s fi r
   end.
 
 (* events of the framer in one tick (tick 0: enterAll + recur; later: segue + recur), and the
